@@ -22,7 +22,9 @@ CONSTANTS
     Manual,          \* manual_journal_persist (writes do not flush the buffer themselves)
     MaxFaults,       \* injected I/O errors
     EnPersistCall,   \* Database::persist calls by a client
-    FixPoisonAppend  \* model of repair: batch / clear poison on a failed journal append as well
+    FixPoisonAppend, \* model of repair: batch / clear poison on a failed journal append as well
+    ClearFlushes     \* model of repair D27: clear flushes the buffer before it drops the tables, also
+                     \* with manual persist (FALSE = the code as found)
 
 VARIABLES
     lock,        \* holder of the journal mutex (0 = free)
@@ -126,10 +128,12 @@ AppendFail(t) ==
                    phase, rec>>
 
 \* persist(Buffer) inside the write (skipped with manual persist; batches persist with their
-\* durability, here Buffer)
+\* durability, here Buffer; clear always persists, because its Apply drops tables on disk)
+SkipsFlush(i) == Manual /\ kind[i] # "b" /\ ~(ClearFlushes /\ kind[i] = "c")
+
 FlushOk(t) ==
     /\ Running /\ pc[t] = "appended"
-    /\ IF Manual /\ kind[cur[t]] # "b"
+    /\ IF SkipsFlush(cur[t])
        THEN UNCHANGED <<nOs, osPart>>
        ELSE nOs' = NApp /\ osPart' = FALSE
     /\ pc' = [pc EXCEPT ![t] = "flushed"]
@@ -138,7 +142,7 @@ FlushOk(t) ==
 
 FlushFail(t) ==
     /\ Running /\ pc[t] = "appended" /\ faults < MaxFaults
-    /\ ~(Manual /\ kind[cur[t]] # "b")
+    /\ ~SkipsFlush(cur[t])
     /\ faults' = faults + 1
     /\ \E n \in nOs..NApp : nOs' = n /\ osPart' = (n < NApp)    \* some prefix reached the OS
     /\ poisoned' = TRUE
@@ -267,6 +271,12 @@ PowerLossKeepsDurable == phase = "powerlost" => durable \subseteq rec
 \* with manual persist, persist(Buffer) makes earlier writes survive a process crash
 \* C09 last sentence
 CrashKeepsBuffered == phase = "crashed" => bufdurable \subseteq rec
+\* Apply of a clear drops the keyspace's tables on disk at once (lsm-tree's clear is a version
+\* change, durable by itself).  After a process crash the clear must therefore be among the
+\* recovered records: otherwise flushed data is gone although the journal replays older writes
+\* as if the clear had never happened (D27: neither the state before nor after the clear).
+ClearDropsTablesOnlyWithRecord ==
+    phase = "crashed" => \A c \in applied : kind[c] = "c" => c \in rec
 SyncOrder == nSync <= nOs /\ nOs <= NApp
 MutualExclusion == \A t1, t2 \in Threads : (t1 # t2 /\ pc[t1] # "idle") => pc[t2] = "idle"
 =============================================================================
